@@ -147,8 +147,7 @@ def all_configs(tier):
     auths = ['none', 'sasl', 'dict']
     comps = [True, False, 'lz4', 'snappy', 'zstd']
     locals_ = [[], [0], [1], [0, 1], [1, 0]]
-    # thorough enumerates complete trees: v3 and DSE v2 (66) take the same branches as v4 and DSE v1 (65) and are left to the quick tier's sampling
-    versions = [1, 2, 3, 4, 5, 6, 65, 66] if tier != 'thorough' else [1, 2, 4, 5, 6, 65]
+    versions = [1, 2, 3, 4, 5, 6, 65, 66]
     out = []
     for fl in ('asyncio', 'twisted'):
         for a, c, l, v in itertools.product(auths, comps, locals_, versions):
